@@ -108,8 +108,11 @@ class Gen:
         w()
         bases = sp.get('bases', {})
         exit_events = set(sp.get('exit_events', []))
+        zoo = sp.get('zoo', {})
         for ev in sp['events']:
             b = bases.get(ev, 'vf::EvBase')
+            if ev in zoo:
+                b = 'vf::Zoo<%d,%d,%d>' % tuple(zoo[ev])
             w('struct %s : %s {' % (ev, b))
             w('    %s() {}' % ev)
             w('    explicit %s(int i) : %s(i) {}' % (ev, b))
